@@ -17,3 +17,78 @@ package core
 //@   invariant right:  forall i int :: off(arr)+len(arr)-off(old(arr)) <= i && i < len(old(arr)) ==> old(arr)[i].v.Seq >= seq
 //@   invariant head:   off(arr) > off(old(arr)) ==> len(arr) > 0 && arr[0].v.Seq < seq
 //@   decreases len(arr)
+
+// ---------------------------------------------------------------------------
+// Doubly linked ring with sentinel (list.go, node.go).  Ghost view:
+//   l.elems  the nodes of the list in order;   n.owner  the list a node is linked into (nil: none);
+//   n.idx == l.base + position, so that popping the front shifts no index.
+
+//@ ghost field (List).elems seq[*Node[T]]
+//@ ghost field (List).base  int
+//@ ghost field (Node).owner *List[T]
+//@ ghost field (Node).idx   int
+
+//@ pure func listInv(l *List[T]) bool =
+//@     l != nil && len(l.elems) >= 0 &&
+//@     (l.root.next == nil ==> len(l.elems) == 0 && l.root.prev == nil) &&
+//@     (l.root.next != nil ==> l.root.next == ite(len(l.elems) > 0, l.elems[0], &l.root) &&
+//@                             l.root.prev == ite(len(l.elems) > 0, l.elems[len(l.elems)-1], &l.root)) &&
+//@     (forall i int :: 0 <= i && i < len(l.elems) ==>
+//@         l.elems[i] != nil && toplevel(l.elems[i]) && l.elems[i].owner == l && l.elems[i].idx == l.base + i &&
+//@         l.elems[i].next == ite(i+1 < len(l.elems), l.elems[i+1], &l.root) &&
+//@         l.elems[i].prev == ite(i > 0, l.elems[i-1], &l.root))
+
+//@ func (*List).IsEmpty
+//@   requires inv: listInv(l)
+//@   ensures  r:   result == (len(l.elems) == 0)
+
+//@ func (*List).Back
+//@   requires inv: listInv(l)
+//@   ensures  r:   result == ite(len(l.elems) == 0, nil, l.elems[len(l.elems)-1])
+
+//@ func (*List).Front
+//@   requires inv: listInv(l)
+//@   ensures  r:   result == ite(len(l.elems) == 0, nil, l.elems[0])
+
+//@ func (*List).PushBack
+//@   requires inv:   listInv(l)
+//@   requires free:  n != nil && toplevel(n) && n.owner == nil
+//@   modifies Node.next, Node.prev, Node.owner, Node.idx, List.elems
+//@   ghost l.elems := old(l.elems) ++ [n]
+//@   ghost n.owner := l
+//@   ghost n.idx   := l.base + len(old(l.elems))
+//@   ensures  inv:   listInv(l)
+//@   ensures  elems: l.elems == old(l.elems) ++ [n]
+//@   ensures  nodes: forall m *Node[T] :: m != n && m != &l.root && (len(old(l.elems)) == 0 || m != old(l.elems[len(l.elems)-1])) ==>
+//@                       m.next == old(m.next) && m.prev == old(m.prev)
+//@   ensures  ghosts: forall m *Node[T] :: m != n ==> m.owner == old(m.owner) && m.idx == old(m.idx)
+//@   ensures  lists: forall k *List[T] :: k != l ==> k.elems == old(k.elems)
+
+//@ func (*List).PopBack
+//@   requires inv:   listInv(l)
+//@   modifies Node.next, Node.prev, Node.owner, List.elems
+//@   ghost l.elems := ite(len(old(l.elems)) > 0, old(l.elems)[:len(old(l.elems))-1], old(l.elems))
+//@   ghost result.owner := nil
+//@   ensures  r:     result == ite(len(old(l.elems)) == 0, nil, old(l.elems[len(l.elems)-1]))
+//@   ensures  inv:   listInv(l)
+//@   ensures  elems: l.elems == ite(len(old(l.elems)) > 0, old(l.elems)[:len(old(l.elems))-1], old(l.elems))
+//@   ensures  out:   result != nil ==> result.next == nil && result.prev == nil && result.owner == nil
+//@   ensures  nodes: forall m *Node[T] :: m != result && m != &l.root && (len(old(l.elems)) < 2 || m != old(l.elems[len(l.elems)-2])) ==>
+//@                       m.next == old(m.next) && m.prev == old(m.prev)
+//@   ensures  ghosts: forall m *Node[T] :: m != result ==> m.owner == old(m.owner)
+//@   ensures  lists: forall k *List[T] :: k != l ==> k.elems == old(k.elems)
+
+//@ func (*List).PopFront
+//@   requires inv:   listInv(l)
+//@   modifies Node.next, Node.prev, Node.owner, List.elems, List.base
+//@   ghost l.elems := ite(len(old(l.elems)) > 0, old(l.elems)[1:], old(l.elems))
+//@   ghost l.base  := ite(len(old(l.elems)) > 0, old(l.base) + 1, old(l.base))
+//@   ghost result.owner := nil
+//@   ensures  r:     result == ite(len(old(l.elems)) == 0, nil, old(l.elems[0]))
+//@   ensures  inv:   listInv(l)
+//@   ensures  elems: l.elems == ite(len(old(l.elems)) > 0, old(l.elems)[1:], old(l.elems))
+//@   ensures  out:   result != nil ==> result.next == nil && result.prev == nil && result.owner == nil
+//@   ensures  nodes: forall m *Node[T] :: m != result && m != &l.root && (len(old(l.elems)) < 2 || m != old(l.elems[1])) ==>
+//@                       m.next == old(m.next) && m.prev == old(m.prev)
+//@   ensures  ghosts: forall m *Node[T] :: m != result ==> m.owner == old(m.owner)
+//@   ensures  lists: forall k *List[T] :: k != l ==> k.elems == old(k.elems) && k.base == old(k.base)
